@@ -310,6 +310,7 @@ def clause_g(ctx, P):
 
 
 def run(ctx, P):
+    f4.check_service_selected_by_resolved_name(ctx, P, "C06h")
     clause_g(ctx, P)
     clause_a(ctx, P)
     clause_bc(ctx, P)
